@@ -58,7 +58,7 @@ Definition run_C13 (op : Z) (args : list val) : val :=
               VList [VErr 996;
                      if secret_ok secret && (length hash =? 32)%nat then VInt 0 else unconstrained]
           end
-      | _ => VList [VErr 996;
+      | _ => VList [vres VBytes (cec_sign E d hash 1);   (* IMPL raised: only the error kind is compared *)
                     if secret_ok secret && (length hash =? 32)%nat then VInt 0 else unconstrained]
       end
   | 3, [VBytes pk; VBytes hash; VBytes sig; impl] =>
